@@ -172,7 +172,10 @@ ObsRet(o, ev) ==
       vOver == IF pump /\ need > o.cfg.hard /\ ev.rc # "ERROR" THEN {V("C10:OverLimitIsError", d, -1)} ELSE {}
       vTrunc == IF pump /\ ev.rc = "DATA" /\ buf # need THEN {V("C10:NotSilentlyTruncated", d, -1)} ELSE {}
       \* C10 steady state: after each complete transaction (nothing in progress) the live heap does not exceed the 8th sample
-      samp == o.cfg.cls = "steady" /\ d = "res" /\ ev.in_tx = -1 /\ ev.out_tx = -1
+      \* ... "after each complete transaction": a sample is taken when no transaction is in progress on either side AND every transaction that was
+      \* started has completed (under pipelining younger requests may be listed, complete on the request side and still unanswered)
+      alldone == \A j \in 1..Len(o.txs) : o.txs[j].tc > 0 \/ (o.txs[j].q = -1 /\ o.txs[j].s = -1)
+      samp == o.cfg.cls = "steady" /\ d = "res" /\ ev.in_tx = -1 /\ ev.out_tx = -1 /\ alldone
       st1 == IF samp THEN [k |-> o.steady.k + 1, base |-> IF o.steady.k + 1 = 8 THEN ev.live ELSE o.steady.base,
                            baseb |-> IF o.steady.k + 1 = 8 THEN ev.liveb ELSE o.steady.baseb] ELSE o.steady
       vSteady == IF samp /\ o.steady.k >= 8 /\ (ev.live > o.steady.base \/ ev.liveb > o.steady.baseb)
